@@ -186,13 +186,13 @@ pub const PROFILES: &[Profile] = &[
     },
     Profile {
         name: "C09",
-        weights: &[(Unwrap, 30), (Clone, 16), (Convert, 8), (Raw, 4), (Union, 4), (Inspect, 6), (Drop, 16), (Mail, 5), (CreateSized, 9), (Uniq, 3), (Shared, 5)],
+        weights: &[(Unwrap, 30), (Clone, 16), (Convert, 8), (Raw, 4), (Union, 4), (Inspect, 6), (Drop, 16), (Mail, 5), (CreateSized, 9), (Uniq, 3), (Shared, 5), (Cow, 5)],
         threads: &[(1, 45), (2, 35), (3, 20)],
         setup_ops: (3, 10),
         par_ops: (2, 10),
         post_ops: (0, 4),
         fault_pct: 8,
-        fault_kinds: &[],
+        fault_kinds: &[Cb::Clone, Cb::Clone, Cb::Drop, Cb::Closure, Cb::Cmp],
         max_len: 3,
         families: ALL_FAM,
     },
@@ -764,7 +764,7 @@ impl<'a> G<'a> {
                     if !(matches!(sh.kind, K::MuP | K::SlMu) && a.owners != 1) {
                         self.set(s, nk, sh.alloc);
                     }
-                    op(OpCode::AssumeInit, s, 0, 0)
+                    op(OpCode::AssumeInit, s, 0, self.rng.below(2))
                 } else {
                     // write the next unwritten slot most of the time (so that "all written" is reached)
                     let i = if self.rng.pct(80) { a.written } else { self.rng.below(a.n.max(1)) };
@@ -1021,5 +1021,6 @@ pub fn generate(prof: &Profile, seed: u64, cfg_a: bool) -> Program {
         par,
         post,
         expect: None,
+        defer_counts: false,
     }
 }
